@@ -78,8 +78,10 @@ def align_oracle(tier, seed):
     fails, n_eval = [], 0
     for n in ((16, 21) if tier == "quick" else (12, 16, 21, 32, 45)):
         x = np.arange(n, dtype=float)
-        base = np.exp(-0.5 * ((x - n // 2) / 1.3) ** 2)
-        for pos in (0, 1):
+        base0 = np.exp(-0.5 * ((x - n // 2) / 1.3) ** 2)
+        for pos, cplx in ((0, False), (1, False), (0, True), (1, True)):
+            # real peaks and phased (complex) peaks: the alignment may only roll a trace, never change its values
+            base = base0 * np.exp(0.7j) if cplx else base0
             # the lag between any trace and the reference (last) trace is at most 2R
             for R, label in ((max(1, n // 8), "lag<=n/4"), (n // 3, "lag>n/2")):
                 shifts = list(range(-R, R + 1))
@@ -95,7 +97,13 @@ def align_oracle(tier, seed):
                     key = "C14:ndalign-shifted-peaks-not-aligned:" + label
                     fails.append({"key": key, "clause": key, "ops": [{"n": n, "dim_pos": pos, "max_shift": R}]})
                 if not np.allclose(got[:, 0], mat[:, 0]):
-                    fails.append({"key": "C14:ndalign-first-trace-touched", "clause": "C14:ndalign-first-trace-touched", "ops": [{"n": n}]})
+                    fails.append({"key": "C14:ndalign-first-trace-touched", "clause": "C14:ndalign-first-trace-touched", "ops": [{"n": n, "complex": cplx}]})
+                # every output trace is a circular shift of the corresponding input trace (same multiset of values, rolled)
+                for j in range(got.shape[1]):
+                    if not any(np.allclose(got[:, j], np.roll(mat[:, j], s)) for s in range(n)):
+                        key = "C14:ndalign-not-a-roll"
+                        fails.append({"key": key, "clause": key, "ops": [{"n": n, "dim_pos": pos, "complex": cplx, "trace": j}]})
+                        break
     return fails, n_eval
 
 
